@@ -294,8 +294,11 @@ class Result:
                 continue
             if e.kind == "break" and loops[-1] == lid:
                 out.append(e)
-            elif e.kind == "return" and e.frame is L.frame:
-                out.append(e)
+            elif e.kind == "return":
+                # a return of a callee inlined *inside* the body only leaves that callee
+                pos = max(i for i, c in enumerate(e.ctx) if c[0] == "loop" and c[1] == lid)
+                if not any(c[0] == "inline" for c in e.ctx[pos + 1:]):
+                    out.append(e)
         return out
 
     def plain(self, t):
